@@ -274,7 +274,8 @@ class VBus(EventBus):
 
     def dispatch(self, event):
         rec = REC
-        if rec is None:
+        if rec is None or rec.bus_by_id.get(id(self)) is not self:
+            # no recording, or a bus of an *earlier* scenario (a left-over coroutine being finalised): never log into another scenario's trace
             return super().dispatch(event)
         caller = rec.calling
         rec.calling = None
@@ -344,9 +345,14 @@ def _enter(rec, hdef, bus, event, sync):
 
 
 def _exit(rec, act, out):
+    if rec is not REC:
+        return       # the scenario this activation belongs to is over (its coroutine is being finalised by the garbage collector)
     rec.open.pop(act, None)
     rec.log('HExit', act=act, out=out)
-    t = asyncio.current_task()
+    try:
+        t = asyncio.current_task()
+    except RuntimeError:
+        return
     st = rec.task_act.get(t)
     if st and st[-1] == act:
         st.pop()
